@@ -626,6 +626,16 @@ func (e *Env) evalCall(x *ast.CallExpr) TV {
 			n := e.clone()
 			n.names[v] = intTV(bv)
 			n.inQuant++
+			if e.vc.binderRange {
+				// The body is only ever evaluated under lo <= bv < hi, and lo, hi are values of Go type int: inside the
+				// body bv lies in [min(lo), max(hi)-1], so bv+1 cannot wrap (and index sums keep their syntactic shape).
+				tint := types.Typ[types.Int]
+				blo, _ := e.vc.rangeOf(lo, tint)
+				_, bhi := e.vc.rangeOf(hi, tint)
+				if blo != nil && bhi != nil {
+					e.vc.setRange(bv, blo, new(big.Int).Sub(bhi, big.NewInt(1)))
+				}
+			}
 			e.vc.enterBinder()
 			body := n.evalBlock(fl.Body.List)
 			tf := e.vc.exitBinder()
